@@ -18,6 +18,10 @@ CHECKS = {
   "explicit-state search over the decoder's input-consumption tree: a byte-string prefix is expanded over a 10-symbol byte alphabet only if decoding it ended because the input ran out (so the depth budget of 8 / 12 bytes goes to the prefixes that keep the decoder hungry: huge counts, huge lengths, nested block headers), for 17 hostile schemas (array<null>, map<null>, recursive records, big-decimal, ...) plus the shared alphabet; 39-45 decodes per node: slice, 1-byte-refill reader, whole-buffer reader x targets (observation, IgnoredAny, non-allocating fold, typed Rust types) x limits tightened one at a time (allowed_depth 0/1/2, max_seq_size 0/1/3, max_alloc_size 0/1/8); oracle: no panic/abort/hang (worker subprocesses under an address-space limit), the reference decoder's nesting / longest collection / largest field above a limit => Err, slice path with a non-allocating target and Ok => 0 heap allocations (counting allocator), peak heap <= 2048 + max_alloc_size + |input|, fill_buf/read calls <= 4|input| + 2 values + 16; plus ~440 literal adversarial seeds under default limits (i64::MIN counts, 2^62 lengths, 10^9 zero-byte elements, 10^5-deep recursion)",
   "trusted: vmodel decoder (shape of valid datums); the counting allocator; bounds: per-schema node caps (dense trees stop at depth 3-6, reported per schema in the evidence: a capped run is not called exhaustive), limits varied one at a time",
   "explicit-state search over the input-consumption tree of the real decoder, resource oracles per state", "DESIGN.md §4 C04"),
+ "C10": ("model_checking",
+  "explicit enumeration of API HISTORIES on real objects: every admissible operation sequence (admissible = what the borrow checker accepts: a SerializerConfig dies before the schema handle it borrows, nothing else) over a pool of resources (one SchemaMut, one Schema, two Arc<Schema>, one SerializerConfig, one container Reader, two value slots) with operations parse / build / 5 edits / freeze ok and freeze on 29 bad graphs (dangling key in an unreachable node of each kind at each position, empty graph) / move through Vec realloc, Box and a channel to another thread / Arc new-clone-drop / serialize / deserialize owned, Cow, borrowed, failing / Debug / open reader (slice, Cursor, 5-byte chunks; codecs) / next / schema().clone() / drops in any order: natively ALL histories of the wide alphabet to depth 4 (245 383; thorough: depth 5 and the full alphabet, 10.5 M) with a differential oracle (every result equals a fresh run of the operation's dependency cone), values re-read after every operation and after cleanup, every borrowed str/bytes must point into the value's own input buffer; under MIRI (stacked borrows, uninitialised reads, use-after-free, leaks, data races) the core alphabet to depth 3 + 97 extra histories (thorough: depth 4, 4 974 histories); two-thread cases: all pairs of programs of <= 2 operations over one shared schema, every merge executed on real threads handing a baton, and each pair once FREE-RUNNING under Miri's data-race detector; thorough adds AddressSanitizer and valgrind sweeps for the C codecs",
+  "trusted: Miri / ASan / valgrind as per-execution oracles (the deciding step is the exhaustive enumeration of histories and merges); the Miri phases have wall-clock budgets - when a budget fires the number of histories covered is reported and the run is not called exhaustive; interleavings below whole-operation granularity are not explored (the crate has no synchronisation of its own: DESIGN.md §4 C10)",
+  "explicit-state enumeration of API histories and thread merges on the real code, memory-error detectors + differential oracle per execution", "DESIGN.md §4 C10"),
  "C11": ("model_checking",
   "for every input (valid encodings of the shared alphabet in 3 block layouts, every truncation and single-byte replacement of them, hostile consumption-tree nodes of 49 schemas, 270 single-object inputs, 96 container files of all six codecs) the slice decode is the reference (value, bytes consumed, a sentinel datum decoded from what follows) and every environment must agree: ALL compositions of the byte string into fill_buf chunks for inputs <= 12 bytes (2^(n-1)), otherwise every uniform chunk size 1..64, one chunk, and deviation-bounded irregular cuts (one extra boundary at every offset on 6 (quick) / 65 (thorough) bases; two extra boundaries for inputs <= 24 / 160 bytes), plus std BufReader capacities 1/2/3/8192; vacuity guards: the byte-wise varint fallback and the scratch-buffer copy must have been taken (recognised from the call pattern)",
   "trusted: the slice path as reference (its own correctness is C03's); max_alloc_size >= |input| assumed; bounds as stated; node caps on some hostile trees are reported (exhaustive: false)",
@@ -116,6 +120,7 @@ def main():
         },
         "engines": [
             {"name": "vcheck", "path": "harness/crates/vcheck", "serves_properties": sorted(CHECKS), "kind_free_text": "hand-rolled explorers in Rust: stateless DFS over choice trees (small-scope exhaustive enumeration), deviation-bounded environment exploration, explicit-state BFS over API histories; every case is executed on the real crate and compared with the reference model vmodel"},
+            {"name": "vmiri", "path": "harness/crates/vmiri", "serves_properties": ["C10"], "kind_free_text": "history interpreter for C10 (binary vhist): enumerates and executes API histories and two-thread cases on real objects; built natively, under Miri (cargo +nightly miri), with AddressSanitizer and run under valgrind"},
             {"name": "vmodel", "path": "harness/crates/vmodel", "serves_properties": sorted(CHECKS), "kind_free_text": "reference model written from the Avro specification (binary codec, PCF, CRC-64-AVRO, container files); shares no code with the subject"},
         ],
         "checks": checks,
